@@ -16,13 +16,15 @@ ESC_UNRESERVED = ["%41", "%61", "%7E", "%2D", "%2E", "%2e"]
 ESC_UTF8 = ["%c3%a9", "%C3%A9", "%E6%97%A5", "%F0%9F%8D%8A"]
 ESC_BAD = ["%E9", "%e9", "%C3", "%A9", "%ED%A0%80", "%C0%80", "%F0%9F"]
 ESC_CTRL = ["%00", "%0A", "%0a", "%7F", "%C2%85", "%1F"]
+# escaped whitespace beyond ASCII (str.strip would eat the decoded character at the end of a URL)
+ESC_USPACE = ["%C2%A0", "%E3%80%80", "%E2%80%83", "%e2%80%a8"]
 MALFORMED = ["%", "%4", "%zz", "%%"]
 SPACE = [" ", "%20"]
 DOUBLE = ["%2541", "%252F", "%2520"]
 # '&amp;' written for '&' (normalize_url repairs it, canonicalize_url must not): as text it is
 # an item boundary followed by the key 'amp;…'
 AMP = ["&amp;", "&amp%3B", "&AMP;"]
-TEXT_ATOMS = LIT + ESC_RESERVED + ESC_UNRESERVED + ESC_UTF8 + ESC_BAD + ESC_CTRL + MALFORMED + SPACE + DOUBLE
+TEXT_ATOMS = LIT + ESC_RESERVED + ESC_UNRESERVED + ESC_UTF8 + ESC_BAD + ESC_CTRL + ESC_USPACE + MALFORMED + SPACE + DOUBLE
 
 # which raw delimiters may appear in which component without changing the parse
 RAW_OK = {
